@@ -159,6 +159,7 @@ def c20(tier):
     kw = dict(models=MINT_MODELS + ('http',))
     return [mint_h('VHarnessServerSwap', 'POST /v1/swap handler with hand-built JSON: 1 input (genuine or arbitrary), 1 arbitrary output, 1 arbitrary spent row; replay and two near-replays', must_reach=('swap-200', 'swap-refused'), **kw),
             mint_h('VHarnessServerMint', 'POST /v1/mint/bolt11 handler with hand-built JSON: stored quote in any state (or none), arbitrary quote id in the request, 1 arbitrary output, backend invoice lookup settled / unsettled / failing; replay', must_reach=('mint-200', 'mint-refused', 'mint-backend-failure'), **kw),
+            mint_h('VHarnessServerFaults', 'each of the 9 quote / mint / swap / melt / checkstate / restore handlers with a well-formed request; a storage error injected at any one storage call of the operation (position symbolic) or a failing invoice lookup; the invoice watcher goroutine started by a mint quote request takes no part', sched=True, go_mode='ignore-all', must_reach=('failure-reported', 'answered-200', 'no-failure'), **kw),
             mint_h('VHarnessServerKeysCache', 'GET /v1/keys then GET /v1/keys/{id} for an arbitrary id string, twice', must_reach=('known-keyset', 'unknown-keyset'), **kw),
             mint_h('VHarnessServerQuoteStates', 'GET mint / melt quote state for a stored quote in every state', must_reach=('mint-quote-state', 'melt-quote-state'), **kw)]
 def c10(tier):
@@ -184,7 +185,7 @@ C10_ASSUME = COMMON_ASSUME + [
 ]
 
 PROPS = {
-    'C20': dict(harnesses=c20, level='bounded symbolic verification (reduced scope): handler decisions and structural JSON shape over a handler-level model of net/http', assumptions=MINT_ASSUME + ['net/http and gorilla/mux modelled at the handler level: request = method + URL + path variables + body, response = recorded status and body'], outside=['byte-exactness of encoding/json output', 'gorilla/mux routing', 'websocket subscriptions (NUT-17)', 'cache expiry timing, CORS headers', 'handlers other than swap, keys, quote state (mint/melt/checkstate/restore handlers share writeErr and decodeJsonReqBody)']),
+    'C20': dict(harnesses=c20, level='bounded symbolic verification (reduced scope): handler decisions and structural JSON shape over a handler-level model of net/http', assumptions=MINT_ASSUME + ['net/http and gorilla/mux modelled at the handler level: request = method + URL + path variables + body, response = recorded status and body'], outside=['byte-exactness of encoding/json output', 'gorilla/mux routing', 'websocket subscriptions (NUT-17)', 'cache expiry timing, CORS headers', 'success-path JSON shape of the melt / melt-quote / mint-quote / checkstate / restore handlers (their status codes and failure reporting are covered by VHarnessServerFaults; shape only for swap, mint, keys, quote state)']),
     'C19': dict(harnesses=c19, level='bounded symbolic verification: counters submitted vs counters stored per operation, restore arithmetic over a symbolic emptiness pattern', assumptions=WALLET_ASSUME + C11_ASSUME, outside=['bolt.go', 'bip39', 'wallet crash points (the WalletDB calls are instrumented but the crash harness is not built)', 'more than 4 batches']),
     'C08': dict(harnesses=c08, level='bounded symbolic verification: every HTTP request body produced by the real client.go is decoded and inspected', assumptions=WALLET_ASSUME, outside=['transport below client.go, side channels', 'mint-to-mint swap, multi-mint payments']),
     'C17': dict(harnesses=c17, level='bounded symbolic verification (reduced scope): per-operation conservation step for one wallet against an honest-contract mint', assumptions=WALLET_ASSUME, outside=['multi-wallet / multi-mint histories as a whole (argued by composition)', 'swapToTrusted / MintSwap / MultiMintPayment', 'bolt.go', 'the real mint behind the fake (C01/C02/C05)']),
